@@ -330,6 +330,12 @@ func (p *Prog) classifyMapLoop(fn *ssa.Function, rg *ssa.Range, next *ssa.Next, 
 			if !blocks[next.Block().Preds[i]] {
 				continue
 			}
+			// a slice that grows by append(slice, ...) is an ordered collection: decided by collect-then-sort below
+			if c, ok := e.(*ssa.Call); ok {
+				if bi, ok := c.Call.Value.(*ssa.Builtin); ok && bi.Name() == "append" && len(c.Call.Args) > 0 && c.Call.Args[0] == ssa.Value(phi) {
+					continue
+				}
+			}
 			if !isAccumulationOf(e, func(v ssa.Value) bool { return v == ssa.Value(phi) }, 0) {
 				problems = append(problems, "loop-carried variable "+phi.Comment+" is overwritten (last iteration wins) rather than accumulated")
 			}
@@ -373,6 +379,14 @@ func (p *Prog) classifyMapLoop(fn *ssa.Function, rg *ssa.Range, next *ssa.Next, 
 		for _, t := range appendTargets {
 			if cellOrValue(sorted) == t {
 				match = true
+			}
+			// register form: the sorted value is the loop's phi that the append feeds
+			if ph, ok := canon(sorted).(*ssa.Phi); ok {
+				for _, e := range ph.Edges {
+					if e == t {
+						match = true
+					}
+				}
 			}
 		}
 		if !match {
